@@ -195,6 +195,19 @@ def convInt : Option Str → Except Err Scalar
     | some i => .ok (.int i)
     | none => .error .valueError
 
+/-- `ast.literal_eval(text)` on decimal integer text: leading blanks are stripped by `literal_eval`, the
+    parser ignores trailing blanks; a non-zero literal with a leading `0` is a `SyntaxError`.
+    Anything that is not an integer literal is outside the model. -/
+def literalEvalInt (t : Str) : Except Err Scalar :=
+  let s := stripWs t
+  let digits := (match s with | '-' :: d => d | '+' :: d => d | d => d).filter (· != '_')
+  match parseIntChars s with
+  | none => .error .unmodelled
+  | some i =>
+    match digits with
+    | '0' :: _ :: _ => if i = 0 then .ok (.int i) else .error .syntaxError
+    | _ => .ok (.int i)
+
 def getAtomicAttr (e : XNode) : Except Err (Option Str × AttrVal) := do
   let name := e.get "name".toList
   let ty := (e.get "type".toList).getD []
@@ -203,7 +216,7 @@ def getAtomicAttr (e : XNode) : Except Err (Option Str × AttrVal) := do
     if ty ∈ atomicTypes then
       if ty ∈ floatTypes then pure (raw.map fun v => match v with | some t => Scalar.float t | none => Scalar.none)
       else if ty ∈ intTypes ∨ ty ∈ uintTypes then raw.mapM convInt
-      else .error .unmodelled        -- `ast.literal_eval`: reached by no atomic type once the tables are complete
+      else (raw.filterMap id).mapM literalEvalInt   -- `ast.literal_eval` (today: `Byte`); `None`s are dropped
     else pure (raw.map fun v => match v with | some t => Scalar.str t | none => Scalar.none)
   pure (name, match vals with
     | [] => AttrVal.none
@@ -231,6 +244,35 @@ def getGroupsList : List XNode → Str → List Str
      else [])
     ++ getGroupsList rest pfx
 end
+
+mutual
+/-- `get_groups` evaluates `get_attributes(group, {})` for every group, depth first (only errors matter here) -/
+def groupAttrsOk : XNode → Except Err Unit
+  | .mk _ _ _ children => groupAttrsOkList children
+def groupAttrsOkList : List XNode → Except Err Unit
+  | [] => .ok ()
+  | g :: rest => do
+    if g.tag = "Group".toList then
+      let _ ← getAttributes g
+      groupAttrsOk g
+    groupAttrsOkList rest
+end
+
+/-- `DMRParser.init_dataset`: global attributes. Every child whose `name` equals the name of some
+    `Attribute` child is visited; a `type` outside the atomic types + String/URI makes it a container. -/
+def rootAttrs (root : XNode) : Except Err (List (Str × AttrVal)) := do
+  let names := (root.findall "Attribute".toList).map (·.get "name".toList)
+  let logs ← root.children.mapM fun sub =>
+    if sub.get "name".toList ∈ names then
+      match sub.get "type".toList with
+      | some t =>
+        if t ∈ atomicTypes ++ ["String".toList, "URI".toList] then do
+          let (n, v) ← getAtomicAttr sub
+          pure [(n.getD [], v)]
+        else getAttributes sub
+      | none => getAttributes sub
+    else pure []
+  pure (dictOfLog logs.flatten)
 
 structure VarRec where
   key : Str                 -- key in `variables` (the name as built by `get_variables`)
@@ -269,6 +311,8 @@ def mkRecord (groups : Bool) (nd : List (Str × Int)) (key : Str) (v : VarEntry)
     (= the order in which the DMR declares the variables) -/
 def parseVars (root : XNode) : Except Err (List VarRec) := do
   if !wellNamed root then .error .typeError
+  groupAttrsOk root            -- DMRParser.__init__ → get_groups
+  let _ ← rootAttrs root       -- init_dataset
   let groups := !(getGroups root ['/']).isEmpty
   let nd ← getNamedDimensions root []
   (dictOfLog (getVariables root [])).mapM fun (k, v) => mkRecord groups nd k v
